@@ -629,8 +629,21 @@ impl<'a> Interp<'a> {
                 Stmt::Raw(l) => {
                     // a library call that reports an error aborts the nested evaluation of a condition call:
                     // the statement does not say what an erroring condition means
-                    if self.cond_depth > 0 && l.contains("nohandle") {
-                        return Err(Stop::Inconclusive("erroring library call inside a condition call".to_string()));
+                    if self.cond_depth > 0 {
+                        let mut errs = l.contains("nohandle");
+                        // ... also when the handle variable is not visible here (some caller up the chain is scoped)
+                        for k in 0..self.p.arrays.len() {
+                            let name = format!("a{}", k);
+                            if l.contains(&format!("${{{}}}", name)) {
+                                let fr = self.cur_ref();
+                                if !fr.vars.contains_key(&name) || fr.unknown.contains(&name) {
+                                    errs = true;
+                                }
+                            }
+                        }
+                        if errs {
+                            return Err(Stop::Inconclusive("erroring library call inside a condition call".to_string()));
+                        }
                     }
                 }
             }
